@@ -68,6 +68,17 @@ Proof.
 Qed.
 Print Assumptions c19_best_effort_cleanup_refuted.
 
+(* key files: whatever was at the path before (nothing, a file of ANY mode) and whatever the umask,
+   the private-key file is not accessible to group or others afterwards *)
+Theorem c19_private_file_mode : forall existing umask, others_bits (write_private existing umask) = 0%N.
+Proof. exact private_file_mode. Qed.
+Print Assumptions c19_private_file_mode.
+
+(* before the fix (a plain WriteFile(path, key, 0600)) a file that was already there kept its mode *)
+Theorem c19_old_existing_mode_refuted : exists existing umask, others_bits (write_file existing umask 384) <> 0%N.
+Proof. exists (Some 420%N), 18%N. exact plain_write_keeps_mode. Qed.
+Print Assumptions c19_old_existing_mode_refuted.
+
 (* offered ⊆ accepted, in terms of its parts; Obl_C19 closes offered_all_accepted = true over the
    alternatives of the server's pattern and the client's RSA size regenerated from the source *)
 Theorem c19_offered_accepted_spec : forall alts rsa_bits, offered_all_accepted alts rsa_bits = true ->
